@@ -252,7 +252,10 @@ impl Future for Sleep {
                 }
                 let seq = w.timer_seq;
                 w.timer_seq += 1;
-                w.timers.push(TimerEntry { at: w.now_ns.saturating_add(dur), seq, shared });
+                // A zero delay requested by dust-dds still lets real time pass; give it a 1 ns quantum
+                // so that a "wake exactly at the deadline, compare with >" loop makes progress.
+                let eff = if record { dur.max(1) } else { dur };
+                w.timers.push(TimerEntry { at: w.now_ns.saturating_add(eff), seq, shared });
             });
         }
         Poll::Pending
